@@ -6,7 +6,7 @@ REPO=${VERIF_REPO:-/repo}
 OUT=$(mktemp /verif/.scratch/baseline.XXXXXX.json 2>/dev/null || mktemp)
 mkdir -p /verif/.scratch
 ( cd "$REPO" && go test -json -vet=off -count=1 -timeout 25m ./... ) > "$OUT" 2>/dev/null
-python3 - "$OUT" <<'PY'
+VERIF_REPO="$REPO" python3 - "$OUT" <<'PY'
 import json,sys
 res={}
 for line in open(sys.argv[1],errors='replace'):
@@ -21,6 +21,22 @@ try:
 except Exception as ex:
     print('cannot read baseline:',ex); base=[]
 bad=[t for t in base if res.get(t)!='pass']
+# load-dependent flakes (e.g. the 200 ms timeout of Test_AppendStore): rerun the packages of the tests that
+# did not pass, up to three times; a test that passes in a rerun counts as passing
+import subprocess,os
+repo=os.environ.get('VERIF_REPO','/repo')
+for attempt in range(3):
+    if not bad or len(bad)>40: break
+    pkgs=sorted({t.split('::')[0] for t in bad})
+    out=subprocess.run(['go','test','-json','-vet=off','-count=1','-timeout','25m']+pkgs,cwd=repo,capture_output=True,text=True,errors='replace').stdout
+    for line in out.splitlines():
+        if not line.startswith('{'): continue
+        try: e=json.loads(line)
+        except Exception: continue
+        if e.get('Action')=='pass' and e.get('Test'):
+            res[e['Package']+'::'+e['Test']]='pass'
+    bad=[t for t in base if res.get(t)!='pass']
+    print('rerun %d of %s: still not passing: %d'%(attempt+1,pkgs,len(bad)))
 print('tests run: %d  passed: %d  baseline stable: %d  baseline not passing: %d'%(len(res),sum(1 for v in res.values() if v=='pass'),len(base),len(bad)))
 for t in bad[:40]: print('  NOT PASSING:',t,res.get(t))
 sys.exit(1 if bad else 0)
